@@ -163,11 +163,15 @@ func VerifH_C17_route() {
 		o.Nodes = append(o.Nodes, &osm.Node{ID: osm.NodeID(i + 1), Version: 1, Lon: p[0] + 1, Lat: p[1] + 1})
 	}
 	order := gPerm(5)
+	tagged := vParam("taggedWays", 0) == 1
 	var members osm.Members
 	for _, k := range order {
 		w := &osm.Way{ID: osm.WayID(100 + k), Version: 1, Nodes: osm.WayNodes{{ID: osm.NodeID(k + 1)}, {ID: osm.NodeID(k + 2)}}}
 		if vRange("reverse", 0, 1) == 1 {
 			w.Nodes[0], w.Nodes[1] = w.Nodes[1], w.Nodes[0]
+		}
+		if tagged {
+			w.Tags = osm.Tags{{Key: "highway", Value: "path"}} // interesting: the way is a feature of its own too
 		}
 		o.Ways = append(o.Ways, w)
 		members = append(members, osm.Member{Type: osm.TypeWay, Ref: int64(w.ID)})
@@ -210,6 +214,18 @@ func VerifH_C17_route() {
 	}
 	vAssert(total == len(pts)-1, "no-segment-duplicated-or-invented")
 	vAssert(len(lines) == 1, "chain-joined-into-one-line")
+	if tagged {
+		// every way is also a feature of its own, with its coordinates in ITS node order
+		for _, w := range o.Ways {
+			fw := featuresOf(fc, "way", int(w.ID))
+			vAssert(len(fw) == 1, "tagged-member-way-is-a-feature")
+			if len(fw) == 1 {
+				a := o.Nodes[int(w.Nodes[0].ID)-1]
+				b := o.Nodes[int(w.Nodes[1].ID)-1]
+				vAssert(vSame(fw[0].Geometry, orb.LineString{{a.Lon, a.Lat}, {b.Lon, b.Lat}}), "member-way-keeps-its-own-node-order")
+			}
+		}
+	}
 }
 
 func c17Dataset() *osm.OSM {
@@ -285,4 +301,37 @@ func VerifH_C17_options() {
 			vAssert(has, "options-only-subtract")
 		}
 	}
+}
+
+// VerifH_C17_membership: features carry their relation memberships (id, role, tags
+// of every relation the element is a member of), for node, way and relation members.
+func VerifH_C17_membership() {
+	o := c17Dataset()
+	// a parent relation that has the route relation, a way and a node as members
+	o.Relations = append(o.Relations, &osm.Relation{ID: 30, Version: 1, Tags: osm.Tags{{Key: "type", Value: "route"}, {Key: "ref", Value: "M"}},
+		Members: osm.Members{{Type: osm.TypeRelation, Ref: 20, Role: "sub"}, {Type: osm.TypeWay, Ref: 10, Role: "area"}, {Type: osm.TypeNode, Ref: 5, Role: "end"}}})
+	fc, err := Convert(o)
+	vReach("converted")
+	vAssert(err == nil, "no-error")
+	has := func(typ string, id int, rel osm.RelationID, role string) bool {
+		fs := featuresOf(fc, typ, id)
+		if len(fs) != 1 {
+			return false
+		}
+		list, ok := fs[0].Properties["relations"].([]*relationSummary)
+		if !ok {
+			return false
+		}
+		for _, s := range list {
+			if s.ID == rel && s.Role == role {
+				return true
+			}
+		}
+		return false
+	}
+	vAssert(has("relation", 20, 30, "sub"), "relation-member-lists-its-parent-relation")
+	vAssert(has("way", 10, 30, "area"), "way-member-lists-its-relation")
+	vAssert(has("node", 5, 30, "end"), "node-member-lists-its-relation")
+	vAssert(has("node", 2, 20, "stop"), "node-member-lists-its-relation-2")
+	vAssert(!has("node", 1, 20, "stop") && !has("node", 1, 30, "end"), "non-member-lists-nothing")
 }
